@@ -163,6 +163,9 @@ func shapeSet(ss *j5schema.SchemaSet) string {
 	d.tok("[")
 	for _, n := range pn {
 		p := ss.Packages[n]
+		if len(p.Schemas) == 0 {
+			continue
+		}
 		d.tok("(")
 		d.str(p.Name)
 		sn := make([]string, 0, len(p.Schemas))
